@@ -498,7 +498,46 @@ def run_seq(fields):
 DISPATCH = {"gas": run_gas, "iphist": run_iphist, "seq": run_seq, "gjenc": run_jun, "gjdec": run_jun, "gbase": run_ip, "gip4": run_ip, "main": run_main, "files": run_files, "asr": run_asr, "pipe": run_pipe, "base": run_ip, "ip4": run_ip, "ip6": run_ip, "jenc": run_jun, "jdec": run_jun}
 
 
+def _start_coverage():
+    """NETCONAN_VERIF_COV=<file>: record which lines of netconan/*.py this process executes (appended as JSON lines); off by default"""
+    path = os.environ.get("NETCONAN_VERIF_COV")
+    if not path:
+        return None
+    root = os.path.join(os.environ.get("NETCONAN_REPO", "/repo"), "netconan")
+    seen = set()
+
+    def tracer(frame, event, arg):
+        fn = frame.f_code.co_filename
+        if not fn.startswith(root):
+            return None
+
+        def local(frame, event, arg):
+            if event == "line":
+                seen.add((fn[len(root) + 1:], frame.f_lineno))
+            return local
+        seen.add((fn[len(root) + 1:], frame.f_lineno))
+        return local
+    sys.settrace(tracer)
+    import threading
+    threading.settrace(tracer)
+
+    def finish():
+        sys.settrace(None)
+        with open(path, "a") as f:
+            f.write(json.dumps(sorted(seen)) + "\n")
+    return finish
+
+
 def main():
+    _fin = _start_coverage()
+    try:
+        _main()
+    finally:
+        if _fin:
+            _fin()
+
+
+def _main():
     cases = json.load(sys.stdin)
     out = []
     for fields in cases:
